@@ -15,6 +15,10 @@ type ProgGen struct {
 	Depth    int
 	hdocN    int
 	pending  []string // heredoc bodies to flush at the next newline
+	// Extra, when set, is consulted first by stmt (below the depth limit); it may return a
+	// replacement production (used by C05 to put comments into every attachment field).
+	// No PRNG draw happens for it when nil.
+	Extra func(g *ProgGen, ind int) (string, bool)
 }
 
 var genWords = []string{"a", "b", "foo", "bar", "x", "1", "22", "-n", "a.b", "/tmp/x", "~", "=", "a=b"}
@@ -233,6 +237,11 @@ func (g *ProgGen) stmt(ind int) string {
 	}
 	g.Depth--
 	defer func() { g.Depth++ }()
+	if g.Extra != nil {
+		if s, ok := g.Extra(g, ind); ok {
+			return s
+		}
+	}
 	tabs := strings.Repeat("\t", ind)
 	switch k := r.Intn(30); {
 	case k < 10:
